@@ -20,9 +20,11 @@ type taint struct {
 	memAny bool
 	// ctrl: a tainted value reaches a branch, an indirect jump or the base of a
 	// load/store: the machine may take another path / touch other lines
-	ctrl  bool
-	regs  [isa.NumRegs]bool
-	lines map[int32]bool
+	ctrl bool
+	// canLoop: the program has a backward branch / jump or an indirect jump
+	canLoop bool
+	regs    [isa.NumRegs]bool
+	lines   map[int32]bool
 }
 
 // explainsClass: for a timing difference between two architecturally right
@@ -33,6 +35,10 @@ func (t *taint) explainsClass(class string, v *core.Verdict) bool {
 	b := baseClass(class)
 	if strings.HasPrefix(b, "invariant:") {
 		// the coherence invariants hold whatever the program computes
+		return false
+	}
+	if b == core.Budget && t != nil && !t.canLoop {
+		// wrong values cannot make a loop-free program run forever
 		return false
 	}
 	if b == "value-dependent-cycles" || (b != core.RegMismatch && b != core.MemMismatch) {
@@ -476,5 +482,21 @@ func featuresOf(c *core.Case) *features {
 	f.tSlowWaw = propagate(p, ref, oSlow)
 	f.tWar = propagate(p, ref, oWar)
 	f.tRing = propagate(p, ref, oRing)
+	// a program whose branches and jumps all go forward and that has no
+	// indirect jump terminates on every path, whatever values it computes
+	canLoop := false
+	for idx, in := range p.Insts {
+		if in.Op == isa.JALR {
+			canLoop = true
+		}
+		if in.Label != "" {
+			if t, ok := p.Labels[in.Label]; ok && t <= idx {
+				canLoop = true
+			}
+		}
+	}
+	for _, t := range []*taint{f.tConflict, f.tShadow, f.tSlowWaw, f.tWar, f.tRing} {
+		t.canLoop = canLoop
+	}
 	return f
 }
